@@ -78,6 +78,99 @@ var (
 	reCollision  = regexp.MustCompile(`address already in use`)
 )
 
+// outSink receives the child's stdout+stderr.  It scans every line as it
+// arrives and keeps only the head and the tail of the stream, so that a child
+// that logs without bound (refresh loops under 1ns intervals) cannot exhaust
+// memory or disk.
+type outSink struct {
+	mu        sync.Mutex
+	head      []byte
+	tail      []byte
+	total     int64
+	line      []byte
+	bad       []string
+	collision bool
+}
+
+const (
+	sinkHead = 96 << 10
+	sinkTail = 96 << 10
+)
+
+func (o *outSink) Write(p []byte) (int, error) {
+	o.mu.Lock()
+	defer o.mu.Unlock()
+	o.total += int64(len(p))
+	if room := sinkHead - len(o.head); room > 0 {
+		n := len(p)
+		if n > room {
+			n = room
+		}
+		o.head = append(o.head, p[:n]...)
+		o.keepTail(p[n:])
+	} else {
+		o.keepTail(p)
+	}
+	for _, c := range p {
+		if c != '\n' {
+			if len(o.line) < 2048 {
+				o.line = append(o.line, c)
+			}
+			continue
+		}
+		o.scanLine()
+	}
+	return len(p), nil
+}
+
+func (o *outSink) keepTail(p []byte) {
+	if len(p) == 0 {
+		return
+	}
+	o.tail = append(o.tail, p...)
+	if len(o.tail) > 2*sinkTail {
+		o.tail = append(o.tail[:0], o.tail[len(o.tail)-sinkTail:]...)
+	}
+}
+
+func (o *outSink) scanLine() {
+	l := o.line
+	o.line = o.line[:0]
+	if reBadLine.Match(l) && len(o.bad) < 8 {
+		o.bad = append(o.bad, tail(string(l), 400))
+	}
+	if !o.collision && reCollision.Match(l) {
+		o.collision = true
+	}
+}
+
+// snapshot returns the kept output and the scan results.
+func (o *outSink) snapshot() (out string, bad []string, collision bool) {
+	o.mu.Lock()
+	defer o.mu.Unlock()
+	if len(o.line) > 0 {
+		o.scanLine()
+	}
+	t := o.tail
+	if len(t) > sinkTail {
+		t = t[len(t)-sinkTail:]
+	}
+	out = string(o.head)
+	if len(t) > 0 {
+		if o.total > int64(len(o.head)+len(t)) {
+			out += fmt.Sprintf("\n… [%d bytes of output dropped] …\n", o.total-int64(len(o.head)+len(t)))
+		}
+		out += string(t)
+	}
+	return out, append([]string(nil), o.bad...), o.collision
+}
+
+func (o *outSink) hasBad() bool {
+	o.mu.Lock()
+	defer o.mu.Unlock()
+	return len(o.bad) > 0
+}
+
 func (h *harness) nextDir(tag string) (string, int) {
 	h.seq.Lock()
 	h.seq.n++
@@ -203,19 +296,13 @@ func (h *harness) attempt(ms []mutation, tag string) (obs *observation, collided
 		obs.Verdict, obs.Class, obs.What = "ambiguous", "write", err.Error()
 		return obs, false
 	}
-	outPath := filepath.Join(dir, "out.log")
-	outF, err := os.Create(outPath)
-	if err != nil {
-		obs.Verdict, obs.Class, obs.What = "ambiguous", "write", err.Error()
-		return obs, false
-	}
+	sink := &outSink{}
 	cmd := exec.Command(h.bin)
 	cmd.Dir = dir
 	cmd.Env = childEnv(h.fx, dir, loc.DebugPort)
-	cmd.Stdout, cmd.Stderr = outF, outF
+	cmd.Stdout, cmd.Stderr = sink, sink
 	t0 := time.Now()
 	if err = cmd.Start(); err != nil {
-		_ = outF.Close()
 		obs.Verdict, obs.Class, obs.What = "ambiguous", "exec", err.Error()
 		return obs, false
 	}
@@ -230,13 +317,12 @@ func (h *harness) attempt(ms []mutation, tag string) (obs *observation, collided
 			return false
 		}
 	}
-	readOut := func() string {
-		b, _ := os.ReadFile(outPath)
-		return string(b)
-	}
+	collision := false
 	finish := func() {
-		_ = outF.Close()
-		obs.Output = readOut()
+		obs.Output, obs.BadLines, collision = sink.snapshot()
+		if os.Getenv("C20_KEEP") != "" {
+			_ = writeFile(filepath.Join(dir, "out.log"), []byte(obs.Output))
+		}
 		obs.Exit = cmd.ProcessState.ExitCode()
 		if ws, ok := cmd.ProcessState.Sys().(syscall.WaitStatus); ok && ws.Signaled() {
 			obs.Signal = ws.Signal().String()
@@ -270,7 +356,7 @@ func (h *harness) attempt(ms []mutation, tag string) (obs *observation, collided
 	if !ready {
 		<-done
 		finish()
-		if reCollision.MatchString(obs.Output) {
+		if collision {
 			return obs, true
 		}
 		h.classifyEarlyExit(obs, ms)
@@ -292,7 +378,7 @@ func (h *harness) attempt(ms []mutation, tag string) (obs *observation, collided
 	sp.ConnTouched = connTouched(ms)
 	// hopeless: the process died or printed a panic; waiting for more answers
 	// cannot change the verdict.
-	hopeless := func() bool { return exited() || reBadLine.MatchString(readOut()) }
+	hopeless := func() bool { return exited() || sink.hasBad() }
 	obs.Groups, obs.Queries = runTraffic(liveServers(tree, loc), sp, hopeless)
 	obs.TrafficMS = time.Since(tTraffic).Milliseconds()
 	tStop := time.Now()
@@ -318,7 +404,7 @@ func (h *harness) attempt(ms []mutation, tag string) (obs *observation, collided
 		}
 	}
 	finish()
-	if reCollision.MatchString(obs.Output) {
+	if collision {
 		return obs, true
 	}
 	h.classifyAccepted(obs, diedDuringTraffic, termTimedOut, sp.TimeTouched)
@@ -327,7 +413,7 @@ func (h *harness) attempt(ms []mutation, tag string) (obs *observation, collided
 
 // panicMessage extracts the text of the terminating panic, or the last lines.
 func panicMessage(out string) (msg string, hasTrace bool) {
-	i := strings.Index(out, "panic: ")
+	i := strings.Index("\n"+out, "\npanic: ")
 	if i < 0 {
 		lines := strings.Split(strings.TrimSpace(out), "\n")
 		if len(lines) > 12 {
@@ -464,11 +550,6 @@ func isLimitEffect(msg string, ms []mutation) bool {
 }
 
 func (h *harness) classifyAccepted(obs *observation, died, termTimedOut, timeTouched bool) {
-	for _, l := range strings.Split(obs.Output, "\n") {
-		if reBadLine.MatchString(l) && len(obs.BadLines) < 8 {
-			obs.BadLines = append(obs.BadLines, tail(l, 400))
-		}
-	}
 	var failed *groupResult
 	for i := range obs.Groups {
 		if !obs.Groups[i].ok() {
@@ -524,6 +605,10 @@ func (h *harness) runCase(c caseSpec) caseResult {
 	cr := caseResult{Spec: c, Obs: h.runOnce(c.Muts, c.Stream)}
 	if cr.Obs.Verdict == "violation" {
 		cr.Second = h.runOnce(c.Muts, c.Stream+"-confirm")
+		cr.Second.Output, cr.Second.Config = tail(cr.Second.Output, 2000), ""
+	} else if cr.Obs.Verdict != "ambiguous" {
+		// Nothing more is needed of a decided, non-violating case.
+		cr.Obs.Output, cr.Obs.Config, cr.Obs.Groups = tail(cr.Obs.Output, 1000), "", nil
 	}
 	return cr
 }
